@@ -485,6 +485,29 @@ class Instance:
     def __setattr__(self, name, val):
         object.__getattribute__(self, '_attrs')[name] = val
 
+    def _dunder(self, name, *args):
+        forest, mod, clsname, genv, it = object.__getattribute__(self, '_meta')
+        if not forest.has_func(mod, f'{clsname}.{name}'):
+            raise TypeError(f'{clsname!r} object does not define {name}')
+        return FuncVal(forest.func(mod, f'{clsname}.{name}'), genv, it)(self, *args)
+
+    def __iter__(self):
+        return iter(self._dunder('__iter__'))
+
+    def __len__(self):
+        return self._dunder('__len__')
+
+    def __getitem__(self, item):
+        return self._dunder('__getitem__', item)
+
+    def __bool__(self):
+        forest, mod, clsname, genv, it = object.__getattribute__(self, '_meta')
+        if forest.has_func(mod, f'{clsname}.__bool__'):
+            return bool(self._dunder('__bool__'))
+        if forest.has_func(mod, f'{clsname}.__len__'):
+            return self._dunder('__len__') > 0
+        return True
+
 
 def module_namespace(forest, mod, interp, extra=None):
     """`mod` as an object whose attributes are its (callable) functions and folded constants: what `import mod` binds."""
